@@ -110,6 +110,46 @@ pub fn run(tier: &str, seed: u64, dir: &str) {
             sink.case(&op, &eval(&op), "frame-orderings", true);
         }
     }
+    // 3. the size clause at its boundary: every region x every uplink data rate x RX1 offsets
+    //    (including those whose RX1 rate the region does not define, where the window falls back)
+    //    x both windows x an authentic fresh frame whose PHYPayload is M+5 / M+6 octets for every
+    //    maximum M of the regional tables; the oracle takes the limit from its own table of the data
+    //    rate the window was opened at
+    for region in REGIONS {
+        for dr in uplink_drs(region) {
+            for off in [0u8, 3, 6, 7] {
+                if off != 0 && !thorough && dr % 2 == 1 {
+                    continue;
+                }
+                for w in ["rx1", "rx2"] {
+                    for m in [19usize, 59, 61, 123, 133, 137, 250] {
+                        for over in [0usize, 1] {
+                            let mut h = Hist::new("C05", region, 20, 0, 900 + dr as u64, &[], None);
+                            h.go_live();
+                            h.abp();
+                            if off != 0 {
+                                // RXParamSetupReq: RX1DROffset = off, RX2 data rate kept at the default
+                                let (f2, d2) = crate::macsuites::default_rx2(region);
+                                h.send(1, false, &[1]);
+                                h.rx_auth("rx1", 0, 1, false, &rx_param_setup_req((off << 4) | d2, f2), None, &[]);
+                            }
+                            h.ev(&format!("dr {}", dr));
+                            h.send(1, false, &[2]);
+                            if w == "rx2" {
+                                // nothing heard in RX1
+                            }
+                            let n = m + 5 + over - 13;
+                            let data: Vec<u8> = (0..n).map(|i| (i * 7 + m) as u8).collect();
+                            h.rx_auth(w, 0, 1, false, &[], Some(7), &data);
+                            h.snap();
+                            let op = h.done();
+                            sink.case(&op, &eval(&op), "size-boundary", true);
+                        }
+                    }
+                }
+            }
+        }
+    }
     // device level: both front-ends with the scripted radio (see adevgen::add_dev_classes)
     crate::adevgen::add_dev_classes("C05", &mut rng, &mut sink, thorough, eval);
     sink.finish(dir, "next_fcnt_down: one digest per `last` value over all 65536 wire values (last = none, every value within +-1000 of 0, 0x8000, 0xFFFF, 0x10000, 0x7FFF0000, 0xFFFEFFFF, 0xFFFF0000, 2^32-1 plus a stride of 97 out to +-70000 in thorough; +-24 in quick; the gap boundaries +-16383..16385, +-65535/65536 in both; plus random); MAC histories with sessions whose downlink counter sits at 16-/32-bit boundaries, mixing fresh, replayed, reordered, far-future, bit-flipped, wrong-key and oversized frames in RX1/RX2/RXC. Non-trivial = every case.", false, serde_json::json!({}));
